@@ -42,6 +42,7 @@ class Sim(object):
         self.trace_order = hashlib.sha256()  # digest of (kind, entity) order = interleaving id
         self.overrun = False
         self.harness_errors = []
+        self.last_event_t = 0.0
 
     # -- randomness -------------------------------------------------------
     def rng(self, label):
@@ -74,6 +75,7 @@ class Sim(object):
         if t > self.now:
             self.now = t
         self.events_run += 1
+        self.last_event_t = self.now
         for h in self.before_event:
             h()
         fn(*args)
@@ -91,6 +93,8 @@ class Sim(object):
             self.step()
             if stop is not None and stop():
                 return
+        if until is not None:
+            self.now = max(self.now, until)
 
     def digest(self):
         h = hashlib.sha256()
